@@ -3,7 +3,8 @@
 
 `Gen/TokenProg.lean` is regenerated on every run from the AST of `make_unique_token` (qmi/core/context.py) by
 `harness/props/c04.py:translate()`: the function body as a list of `Instr` (the `with self._unique_counters_lock:` block
-becomes `acquire … release`) and the shape of the token string as a list of `TokPart`.
+becomes `acquire … release`), the shape of the token string as a list of `TokPart`, and the sources of the per-instance
+identifier `_instance_id` (from its assignment in `QMI_Context.__init__`) as a list of `IdSource`.
 
 `tstep prog s i` lets thread `i` execute its next statement (a blocked `acquire` leaves the state unchanged); a schedule
 is any `List Nat` of thread ids.  Thread ids are unbounded: any number of threads, each performing one call (a thread
@@ -26,6 +27,20 @@ inductive Instr
 inductive TokPart
   | pfx | instanceId | lit (s : String) | counter
   deriving DecidableEq, Repr
+
+/-- where the value of `QMI_Context._instance_id` comes from (classified from the AST of its single assignment) -/
+inductive IdSource
+  | osEntropy (bytes : Nat)   -- `os.urandom(n)`, `secrets.*`, `uuid.uuid4()`, `random.SystemRandom()`: the OS entropy pool
+  | globalPrng                -- the `random` module's (or numpy's) global generator: a program can put it into a repeated state
+  | clock                     -- `time.*`, `datetime.*`, `uuid.uuid1()`
+  | pid                       -- `os.getpid()`, thread ids
+  | objectId                  -- `id(...)`
+  | clientState               -- attributes of the context (its name, configuration …) or other program-controlled values
+  deriving DecidableEq, Repr
+
+/-- the identifier contains at least 48 bits drawn from the OS entropy source (whatever else is mixed in) -/
+def fromOsEntropy (l : List IdSource) : Bool :=
+  l.any (fun x => match x with | .osEntropy b => decide (6 ≤ b) | _ => false)
 
 structure TS where
   counter : Nat            -- `_unique_counters[prefix]` (0 = absent)
